@@ -647,6 +647,7 @@ class SymExec:
             elif b.kind != "const":
                 st.pc.append(b)
             self.learn(st, ev.node, ev.val, func, depth)
+            self.learn_atoms(st, b)
             return [st]
         if k == "return" or k == "implicit_return":
             if k == "return" and ev.node.value is not None:
@@ -710,6 +711,16 @@ class SymExec:
                     s = f.a + b.a.scale(sign)
                     if s.is_const() and s.c > 0:
                         return True
+        # unit propagation through disjunctions: (d1 or d2 ...) with every disjunct refuted by the other facts
+        def refuted(d, facts):
+            nd = b_not(d)
+            return any(f == nd for f in facts)
+
+        if b.kind == "or" and all(refuted(d, st.pc) for d in b.a):
+            return True
+        for f in st.pc:
+            if f.kind == "or" and all(refuted(d, [*st.pc, *(b.a if b.kind == "and" else [b])]) for d in f.a):
+                return True
         # two facts together (transitivity through one intermediate): l1 <= 0, l2 <= 0, b <= 0 with l1+l2+b = const > 0
         if b.kind == "le":
             les = [f for f in st.pc if f.kind == "le"]
@@ -1032,6 +1043,11 @@ class SymExec:
             if r is not None:
                 return B("const", r if t is ast.Is else not r)
             at = B("atom", f"{_ord2(a, b)[0]!r} is {_ord2(a, b)[1]!r}")
+            for x, y in ((a, b), (b, a)):
+                if isinstance(x, Sym) and "@" in x.name and not (isinstance(y, Sym) and "@" in y.name):
+                    if not hasattr(self, "is_atoms"):
+                        self.is_atoms = {}
+                    self.is_atoms[at.a] = (x.name, y)
             return at if t is ast.Is else b_not(at)
         if t in (ast.In, ast.NotIn):
             if isinstance(b, Tup) and all(isinstance(x, Lin | Const) for x in b.items) and isinstance(a, Lin | Const):
@@ -1151,6 +1167,14 @@ class SymExec:
                 pass
         if isinstance(obj, GhostList) and isinstance(idx, Lin) and idx.is_const():
             return obj.elem(int(idx.c))
+        if isinstance(obj, GhostList) and isinstance(idx, Lin):
+            # len(rows) - k  ==  the k-th row from the back
+            try:
+                d = idx - as_lin(obj.count)
+                if d.is_const() and d.c < 0:
+                    return obj.elem(int(d.c))
+            except NotNumeric:
+                pass
         if isinstance(obj, Sym):
             return Sym(f"{obj.name}[{_short(idx)}]")
         if isinstance(obj, Tup | Const) and isinstance(idx, Sym | Lin | Str):
@@ -1383,6 +1407,20 @@ class SymExec:
         g.total = Lin.atom(st.new_name(f"ΣL({g.name})?"))
         g.count = Lin.atom(st.new_name(f"len({g.name})?"))
         return Unknown(f"list.{attr}")
+
+    def learn_atoms(self, st, b: B):
+        """Identity facts carried by a boolean *value* (e.g. through a local `at_end = self.rows[-1] is x`):
+        a positive atom '<list>@k is <v>' recorded by compare() makes that element an alias of v."""
+        reg = getattr(self, "is_atoms", None)
+        if not reg:
+            return
+        for f in (b.a if b.kind == "and" else [b]):
+            if f.kind == "atom" and f.a in reg:
+                elem, other = reg[f.a]
+                gname = elem.rsplit("@", 1)[0]
+                for v in [*st.heap.values(), *st.env.values()]:
+                    if isinstance(v, GhostList) and v.name == gname and elem not in v.alias:
+                        v.alias[elem] = other
 
     def learn(self, st, test, truth, func, depth):
         """Identity facts: `<ghost>[0|-1] is x` true  =>  that element *is* x."""
